@@ -76,7 +76,7 @@ func ruleF10(c *Ctx) *RuleResult {
 		}
 		key := FuncName(fn) + "|per-unit-dts"
 		if dts == nil {
-			r.fail(key, c.Pos(fn.Pos()), FuncName(fn), "each unit of a multi-unit write gets its own decode time", "no dts assignment found")
+			r.undecided("%s: %s — %s (the construct this rule is anchored on was not found: no verdict)", key, "each unit of a multi-unit write gets its own decode time", "no dts assignment found")
 			continue
 		}
 		usesPacketDuration := false
@@ -197,7 +197,7 @@ func ruleF12(c *Ctx) *RuleResult {
 		}
 	})
 	if call == nil {
-		r.fail("initializeReader|pick", c.Pos(fn.Pos()), FuncName(fn), "the leading track is picked by mpegtsPickLeadingTrack", "no call found")
+		r.undecided("%s: %s — %s (the construct this rule is anchored on was not found: no verdict)", "initializeReader|pick", "the leading track is picked by mpegtsPickLeadingTrack", "no call found")
 		return r
 	}
 	n := 0
@@ -224,7 +224,7 @@ func ruleF12(c *Ctx) *RuleResult {
 		}
 	}
 	if n == 0 {
-		r.fail("initializeReader|leading-index", c.Pos(call.Pos()), FuncName(fn), "the picked index is compared with a range index", "no comparison found")
+		r.undecided("%s: %s — %s (the construct this rule is anchored on was not found: no verdict)", "initializeReader|leading-index", "the picked index is compared with a range index", "no comparison found")
 	}
 	r.Instances = n
 	return r
@@ -378,7 +378,7 @@ func ruleF13(c *Ctx) *RuleResult {
 		r.fail(key, c.Pos(st.Pos()), FuncName(fn), "the CODECS entry is codecparams.Marshal(track.Codec) evaluated while rendering", "entry is "+what+": a cached or precomputed string goes stale when codec parameters change in-band")
 	}
 	if n == 0 {
-		r.fail("populateMultivariantPlaylist|codecs-entry", c.Pos(fn.Pos()), FuncName(fn), "a CODECS entry is appended per track", "no append to Codecs found")
+		r.undecided("%s: %s — %s (the construct this rule is anchored on was not found: no verdict)", "populateMultivariantPlaylist|codecs-entry", "a CODECS entry is appended per track", "no append to Codecs found")
 	}
 	r.Instances = n
 	return r
@@ -460,7 +460,7 @@ func ruleG11(c *Ctx) *RuleResult {
 		}
 	}
 	if n == 0 {
-		r.fail("Muxer.Start|auto-default", c.Pos(start.Pos()), FuncName(start), "a default rendition is chosen automatically when the user marked none", "no constant-true assignment to isDefault found")
+		r.undecided("%s: %s — %s (the construct this rule is anchored on was not found: no verdict)", "Muxer.Start|auto-default", "a default rendition is chosen automatically when the user marked none", "no constant-true assignment to isDefault found")
 	}
 	r.Instances = n
 	return r
@@ -548,7 +548,7 @@ func ruleT7b(c *Ctx) *RuleResult {
 	chk := func(key string, v ssa.Value, want *ssa.Parameter, what string) {
 		switch {
 		case v == nil:
-			r.fail(key, c.Pos(fn.Pos()), FuncName(fn), what, "no such argument found")
+			r.undecided("%s: %s — %s (the construct this rule is anchored on was not found: no verdict)", key, what, "no such argument found")
 		case stripConv(v) == want:
 			r.ok(key, c.Pos(fn.Pos()), FuncName(fn), what, "the parameter "+want.Name()+" (converted only)")
 		default:
